@@ -235,6 +235,12 @@ class IdDomain(WorldsDomain):
                 return FRESH
         if self._is_max_keys(value):
             return 'bad'
+        # len(<container>) [+ k]: fresh only while the ids in the container are 0 .. len-1 without gaps
+        base = value.left if isinstance(value, ast.BinOp) and isinstance(value.op, ast.Add) and \
+            literal_int(value.right) is not None and literal_int(value.right) >= 0 else value
+        if isinstance(base, ast.Call) and isinstance(base.func, ast.Name) and base.func.id == 'len' and len(base.args) == 1 \
+                and norm(base.args[0]).split('.')[-1] in ('nodes', 'edges', 'keys()'):
+            return 'dense'
         if isinstance(value, ast.Subscript) and norm(value.value).endswith('nid_terminal'):
             return REF
         if isinstance(value, ast.Name) and value.id not in self.counters:
@@ -283,6 +289,12 @@ class IdDomain(WorldsDomain):
                         self.report('allocator-not-above-max', node,
                                     f'`{norm(node)}`: new id is not taken above the maximum existing id')
                         p[t.id] = USED
+                    elif cls == 'dense':
+                        # an event, judged by the rule that knows who fills the container (gap-free or not)
+                        self.report('assumes-dense-ids', node,
+                                    f'`{norm(node)}`: the new id is the number of existing ids - fresh only if the existing ids '
+                                    f'are consecutive from 0')
+                        p[t.id] = FRESH
                     else:
                         p[t.id] = cls
         elif isinstance(node, ast.AugAssign):
@@ -290,6 +302,10 @@ class IdDomain(WorldsDomain):
             if isinstance(t, ast.Name) and t.id in self.counters:
                 k = literal_int(node.value)
                 if isinstance(node.op, ast.Add) and k is not None and k >= 1:
+                    if p.get(t.id) == FRESH or k > 1:
+                        # the counter is advanced although its current value was never handed out: a gap in the id range
+                        self.report('id-gap', node, f'`{norm(node)}`: `{t.id}` is advanced while its current value is unused on '
+                                                    f'some path (ids are no longer consecutive)')
                     p[t.id] = FRESH
                     self.increments += 1
                 else:
